@@ -1,9 +1,9 @@
 package props
 
 import (
-	"sort"
 	"errors"
 	"fmt"
+	"sort"
 	"strconv"
 
 	"github.com/orda-io/orda/client/pkg/orda"
@@ -21,8 +21,8 @@ func init() {
 			"return values are compared where the plain structure defines them (counter: new value; map put/remove: previous value; list delete/update: previous values; all getters)",
 			"calls the statement does not classify (removing a missing key, inserting zero values, empty key in a document object) may return an error or be a silent no-op; any other state change is a violation",
 		},
-		Cases: func(t string) int { return tierN(t, 2000, 120000) },
-		Floor: func(t string) int { return tierN(t, 500, 30000) },
+		Cases: func(t string) int { return tierN(t, 6000, 120000) },
+		Floor: func(t string) int { return tierN(t, 1500, 30000) },
 		Run:   runC03,
 	})
 }
